@@ -434,7 +434,7 @@ def main(tier, replay=None):
     bag = Bag()
     tot = {'ends': 0, 'runs': 0, 'lcompared': 0, 'ndrift': 0}
     outcomes, errkinds, drift = {}, {}, {}
-    nrep = 2 if tier == 'quick' else 3
+    nrep = 2
     only = os.environ.get('VERIF_C03_ONLY')          # development aid: comma-separated focus names
     focuses = [f for f in FOCUSES if not only or f in only.split(',')]
     r = run_tlc('enum', focuses, tier, False, False)
